@@ -1981,7 +1981,11 @@ impl KotoVm {
             self,
             RemainderAssign,
             remainder_assign,
-            |a: &KNumber, b: &KNumber| a % b,
+            // Integer remainder with a zero divisor yields NaN, matching `run_remainder`
+            |a: &KNumber, b: &KNumber| match b {
+                KNumber::I64(0) => KNumber::F64(f64::NAN),
+                _ => a % b,
+            },
             lhs,
             rhs
         )
